@@ -62,4 +62,135 @@ C03_OK(ev) ==
   /\ DocUnits(ev.doc) = RefStrokes(ev.rows)
   /\ TextsExactAscii(ev.rows, ev.doc, C03TextCells(ev.rows))
 C03_NT(ev) == RefStrokes(ev.rows) # {}
+
+---------------------------------------------------------------------------
+(* cell rows: the input row with every wide character followed by a filler (code 0), so     *)
+(* that the index in the row is the display column                                          *)
+CellRow(row) == FoldLeft(LAMBDA a, c : IF WideCp(c) THEN a \o <<c, NUL>> ELSE Append(a, c), <<>>, row)
+CellRows(rows) == [r \in 1..Len(rows) |-> CellRow(rows[r])]
+StripCRRow(row) == IF Len(row) > 0 /\ row[Len(row)] = 13 THEN SubSeq(row, 1, Len(row) - 1) ELSE row
+
+\* the drawing part: rows before the first row that starts with "# Legend:" (after blanks)
+LegendHeader == <<35, 32, 76, 101, 103, 101, 110, 100, 58>>
+LStrip(row) == LET idx == { i \in 1..Len(row) : row[i] \notin {32, 9} } IN
+               IF idx = {} THEN <<>> ELSE SubSeq(row, SetMin(idx), Len(row))
+IsLegendRow(row) == LET s == LStrip(row) IN Len(s) >= 9 /\ SubSeq(s, 1, 9) = LegendHeader
+LegendAt(rows) == LET idx == { r \in 1..Len(rows) : IsLegendRow(rows[r]) } IN IF idx = {} THEN 0 ELSE SetMin(idx)
+DrawingRows(rows) == IF LegendAt(rows) = 0 THEN rows ELSE SubSeq(rows, 1, LegendAt(rows) - 1)
+
+---------------------------------------------------------------------------
+(* quoted segments of a cell row: pairs <<open, close>> of quote positions, scanned left to  *)
+(* right; inside a segment backslash-quote does not close it; an unpaired quote is ordinary  *)
+QuoteSegs(cr) ==
+  LET step(st, p) ==
+        IF st.skip THEN [st EXCEPT !.skip = FALSE]
+        ELSE IF st.open = 0 THEN (IF cr[p] = QUOTE THEN [st EXCEPT !.open = p] ELSE st)
+        ELSE IF cr[p] = 92 /\ p < Len(cr) /\ cr[p + 1] = QUOTE THEN [st EXCEPT !.skip = TRUE]
+        ELSE IF cr[p] = QUOTE THEN [st EXCEPT !.open = 0, !.segs = Append(st.segs, <<st.open, p>>)]
+        ELSE st
+  IN FoldLeft(step, [open |-> 0, skip |-> FALSE, segs |-> <<>>], [p \in 1..Len(cr) |-> p]).segs
+InSeg(segs, p) == \E i \in 1..Len(segs) : segs[i][1] <= p /\ p <= segs[i][2]
+\* the row with every quoted region, quotes included, replaced by spaces
+BlankQuoted(cr) == LET segs == QuoteSegs(cr) IN [p \in 1..Len(cr) |-> IF InSeg(segs, p) THEN SP ELSE cr[p]]
+\* what is shown of a quoted content: fillers and characters XML cannot represent are dropped
+Shown(s) == SelectSeq(s, LAMBDA c : c # NUL /\ XmlChar(c))
+\* expected text elements of the quoted segments of row r (1-based): <<x, y, content>> in lattice units
+QuotedTexts(cr, r) == LET segs == QuoteSegs(cr) IN
+  [i \in 1..Len(segs) |-> <<(segs[i][1] - 1) * CW + 2, (r - 1) * CH + 12, Shown(SubSeq(cr, segs[i][1] + 1, segs[i][2] - 1))>>]
+
+---------------------------------------------------------------------------
+(* C12 — canvas and containment                                                             *)
+Occupied(cr) == { p \in 1..Len(cr) : ~IsWs(cr[p]) /\ cr[p] # SP }      \* fillers count: they are the 2nd column of a wide char
+LastCol(crs) == LET S == UNION { Occupied(crs[r]) : r \in 1..Len(crs) } IN IF S = {} THEN 1 ELSE SetMax(S)
+LastRow(crs) == LET S == { r \in 1..Len(crs) : Occupied(crs[r]) # {} } IN IF S = {} THEN 1 ELSE SetMax(S)
+RefCanvasW(crs) == (LastCol(crs) + 1) * CW * MILLI       \* 1-based column c is 0-based c-1: (c - 1 + 2) cells
+RefCanvasH(crs) == (LastRow(crs) + 1) * CH * MILLI
+CpCells(c) == IF WideCp(c) THEN 2 ELSE 1
+TextCellsLen(s) == FoldLeft(LAMBDA a, c : a + CpCells(c), 0, s)
+InCanvas(doc, x, y) == x >= 0 /\ x <= doc.w /\ y >= 0 /\ y <= doc.h
+ElemContained(doc, e) ==
+  IF IsText(e) THEN /\ InCanvas(doc, e.n[1], e.n[2])
+                    /\ e.n[1] - 2 * MILLI + TextCellsLen(e.s) * CW * MILLI <= doc.w
+  ELSE IF IsRect(e) THEN InCanvas(doc, e.n[1], e.n[2]) /\ InCanvas(doc, e.n[1] + e.n[3], e.n[2] + e.n[4])
+  ELSE IF IsCircle(e) THEN InCanvas(doc, e.n[1] - e.n[3], e.n[2] - e.n[3]) /\ InCanvas(doc, e.n[1] + e.n[3], e.n[2] + e.n[3])
+  ELSE IF IsPath(e) THEN InCanvas(doc, e.n[1], e.n[2]) /\ InCanvas(doc, e.n[5], e.n[6])
+  ELSE \A i \in 1..(Len(e.n) \div 2) : InCanvas(doc, e.n[2 * i - 1], e.n[2 * i])
+Contained(doc) == \A i \in Idx(doc) : ElemContained(doc, doc.elems[i])
+C12_With(crs, doc) ==
+  /\ doc.wf = 1
+  /\ Abs(doc.w - RefCanvasW(crs)) <= 8 /\ Abs(doc.h - RefCanvasH(crs)) <= 8
+  /\ Contained(doc)
+DrawCells(ev) == CellRows([r \in 1..Len(DrawingRows(ev.rows)) |-> StripCRRow(DrawingRows(ev.rows)[r])])
+C12_OK(ev) == C12_With(DrawCells(ev), ev.doc)
+\* the same, as if every quoted region were blank and quoted texts were not drawn: this is what the
+\* code computes today (known finding: the canvas does not see quoted text)
+IsQuotedText(crs, e) == IsText(e) /\ \E r \in 1..Len(crs) : \E i \in 1..Len(QuotedTexts(crs[r], r)) :
+     LET q == QuotedTexts(crs[r], r)[i] IN e.n[1] = q[1] * MILLI /\ e.n[2] = q[2] * MILLI /\ e.s = q[3]
+C12_ExQuoted(ev) ==
+  LET crs == DrawCells(ev)
+      blanked == [r \in 1..Len(crs) |-> BlankQuoted(crs[r])]
+      doc2 == [ev.doc EXCEPT !.elems = SelectSeq(ev.doc.elems, LAMBDA e : ~IsQuotedText(crs, e))]
+  IN ev.doc.wf = 1 /\ C12_With(blanked, doc2)
+C12_NT(ev) == ev.doc.wf = 1 /\ Len(ev.doc.elems) > 0
+
+---------------------------------------------------------------------------
+(* C09 — no two plain lines collinear and touching, no plain line twice                      *)
+\* coordinates in 1/8 lattice unit so that cross products stay within 32 bits
+E8(m) == m \div 125
+LP1(e) == <<E8(e.n[1]), E8(e.n[2])>>
+LP2(e) == <<E8(e.n[3]), E8(e.n[4])>>
+LinesTouchCollinear(a, b) ==
+  /\ Collinear(LP1(a), LP2(a), LP1(b)) /\ Collinear(LP1(a), LP2(a), LP2(b))
+  /\ (InBox(LP1(b), LP1(a), LP2(a)) \/ InBox(LP2(b), LP1(a), LP2(a)) \/ InBox(LP1(a), LP1(b), LP2(b)) \/ InBox(LP2(a), LP1(b), LP2(b)))
+NoCollinearTouching(doc) ==
+  LET P == { i \in Idx(doc) : IsPlainLine(doc.elems[i]) /\ LP1(doc.elems[i]) # LP2(doc.elems[i]) } IN
+  \A i, j \in P : i < j => ~LinesTouchCollinear(doc.elems[i], doc.elems[j])
+C09_OK(ev) == ev.doc.wf = 1 /\ NoCollinearTouching(ev.doc)
+C09_NT(ev) == ev.doc.wf = 1 /\ Cardinality({ i \in Idx(ev.doc) : IsPlainLine(ev.doc.elems[i]) }) >= 2
+
+\* (i) the run family.  ev.run = [ch, len, dir ("h", "v", "s" = '/', "b" = '\'), k, n]
+RunRows(run) ==
+  [i \in 1..run.n |-> <<>>] \o
+  (IF run.dir = "h" THEN << [j \in 1..run.k |-> SP] \o [j \in 1..run.len |-> run.ch] >>
+   ELSE [i \in 1..run.len |->
+           [j \in 1..(run.k + (IF run.dir = "v" THEN 0 ELSE IF run.dir = "s" THEN run.len - i ELSE i - 1)) |-> SP] \o <<run.ch>>])
+DoubleCh == {61, 9552, 9553}                             \* = and the double box-drawing lines
+BrokenCh == {126, 9476, 58, 33, 9550, 9482, 9478}        \* ~ and the dashed box-drawing lines, : !
+RunLineOK(e, run) ==
+  LET x0 == run.k * CW * MILLI  y0 == run.n * CH * MILLI
+      x1 == (run.k + (IF run.dir = "v" THEN 1 ELSE run.len)) * CW * MILLI
+      y1 == (run.n + (IF run.dir = "h" THEN 1 ELSE run.len)) * CH * MILLI IN
+  /\ IsPlainLine(e)
+  /\ (IsBroken(e) <=> run.ch \in BrokenCh) /\ (IsSolid(e) <=> run.ch \notin BrokenCh)
+  /\ CASE run.dir = "h" -> {e.n[1], e.n[3]} = {x0, x1} /\ e.n[2] = e.n[4] /\ e.n[2] >= y0 /\ e.n[2] <= y1
+       [] run.dir = "v" -> {e.n[2], e.n[4]} = {y0, y1} /\ e.n[1] = e.n[3] /\ e.n[1] >= x0 /\ e.n[1] <= x1
+       [] run.dir = "s" -> { <<e.n[1], e.n[2]>>, <<e.n[3], e.n[4]>> } = { <<x1, y0>>, <<x0, y1>> }
+       [] OTHER         -> { <<e.n[1], e.n[2]>>, <<e.n[3], e.n[4]>> } = { <<x0, y0>>, <<x1, y1>> }
+C09run_OK(ev) ==
+  /\ ev.doc.wf = 1
+  /\ ev.rows = RunRows(ev.run)
+  /\ Len(ev.doc.elems) = (IF ev.run.ch \in DoubleCh THEN 2 ELSE 1)
+  /\ \A i \in Idx(ev.doc) : RunLineOK(ev.doc.elems[i], ev.run)
+  /\ (Len(ev.doc.elems) = 2 => ev.doc.elems[1].n # ev.doc.elems[2].n)
+
+---------------------------------------------------------------------------
+(* C04 — text elements show input characters where they are; non-drawing characters are      *)
+(* covered exactly once (domain: no double quote, no braces, single- and double-width chars) *)
+TextCols(e) == LET c0 == TextCol(e) IN       \* display column (1-based) of each character
+  [i \in 1..Len(e.s) |-> c0 + TextCellsLen(SubSeq(e.s, 1, i - 1))]
+TextMatches(crs, e) ==
+  /\ TextAnchorOK(e) /\ Len(e.s) > 0
+  /\ TextRow(e) \in 1..Len(crs)
+  /\ \A i \in 1..Len(e.s) : LET c == TextCols(e)[i] IN
+        c \in 1..Len(crs[TextRow(e)]) /\ crs[TextRow(e)][c] = e.s[i]
+TextCovered(e) == { <<TextRow(e), TextCols(e)[i]>> : i \in 1..Len(e.s) }
+NonDrawingCells(crs) == { rc \in UNION { {r} \X (1..Len(crs[r])) : r \in 1..Len(crs) } :
+     LET c == crs[rc[1]][rc[2]] IN c # NUL /\ c # SP /\ ~IsWs(c) /\ ~Drawing(c) }
+C04_OK(ev) ==
+  LET crs == DrawCells(ev) T == OfKind(ev.doc, "text") IN
+  /\ ev.doc.wf = 1
+  /\ \A i \in T : TextMatches(crs, ev.doc.elems[i])
+  /\ \A i, j \in T : i # j => TextCovered(ev.doc.elems[i]) \cap TextCovered(ev.doc.elems[j]) = {}
+  /\ NonDrawingCells(crs) \subseteq UNION { TextCovered(ev.doc.elems[i]) : i \in T }
+C04_NT(ev) == NonDrawingCells(DrawCells(ev)) # {}
 =============================================================================
